@@ -82,7 +82,11 @@ impl<'de> CookieDeserializer<'de> {
     }
     #[inline(always)]
     fn next_section(&mut self) -> Result<Cow<'de, str>, super::Error> {
-        let next_punc = self.input.iter().position(|b| matches!(b, b'=' | b';'));
+        /* a value ends at `;` and may contain `=` (RFC 6265 cookie-octet) */
+        let next_punc = match &self.side {
+            ParsingSide::Name  => self.input.iter().position(|b| matches!(b, b'=' | b';')),
+            ParsingSide::Value => self.input.iter().position(|b| matches!(b, b';')),
+        };
 
         match &self.side {
             ParsingSide::Name => match next_punc {
